@@ -194,6 +194,72 @@ class _CmpFlip(ast.NodeTransformer):
     return node
 
 
+class _MulSwap(ast.NodeTransformer):
+  """a * b -> b * a (numeric products; never string / sequence repetition)."""
+
+  def visit_BinOp(self, node):
+    self.generic_visit(node)
+    seq = (ast.List, ast.Tuple, ast.JoinedStr, ast.ListComp)
+    def strish(e):
+      return isinstance(e, seq) or (isinstance(e, ast.Constant) and isinstance(e.value, (str, bytes)))
+    if isinstance(node.op, ast.Mult) and not strish(node.left) and not strish(node.right):
+      node.left, node.right = node.right, node.left
+    return node
+
+
+class _ElseReturn(ast.NodeTransformer):
+  """if c: ...return/raise/continue   rest...   ->   if c: ... else: rest...   (last if of a block, no else yet)."""
+
+  def generic_visit(self, node):
+    super().generic_visit(node)
+    for f in ('body', 'orelse', 'finalbody'):
+      v = getattr(node, f, None)
+      if isinstance(v, list) and v and isinstance(v[0], ast.stmt):
+        for i, st in enumerate(v[:-1]):
+          if isinstance(st, ast.If) and not st.orelse and isinstance(st.body[-1], (ast.Return, ast.Raise, ast.Continue)) and not any(
+              isinstance(x, (ast.FunctionDef, ast.ClassDef)) for x in v[i + 1:]):
+            if isinstance(st.body[-1], ast.Continue) and not isinstance(node, (ast.For, ast.While)):
+              continue
+            st.orelse = v[i + 1:]
+            del v[i + 1:]
+            break
+    return node
+
+
+def kwify(module: Module, repo: Repo) -> str:
+  """Positional arguments of calls that resolve to repository functions become keyword arguments."""
+  from fjsa.flow import FuncFlow
+  edits = []
+  for fi in module.functions():
+    try:
+      ff = FuncFlow.of(repo, fi)
+    except Exception:  # pylint: disable=broad-except
+      continue
+    for _, c in ff.calls():
+      if not c.args or any(isinstance(a, ast.Starred) for a in c.args):
+        continue
+      r = ff.callee(c)
+      if r.kind != 'func' or r.bound_args or r.wrappers:
+        continue
+      g = r.func
+      if not isinstance(g.node, (ast.FunctionDef, ast.AsyncFunctionDef)) or g.node.args.posonlyargs or g.node.args.vararg:
+        continue
+      pos = list(g.positional_params)
+      if pos and pos[0] in ('self', 'cls'):
+        continue
+      if len(c.args) > len(pos):
+        continue
+      edits.append((c, pos))
+  for c, pos in edits:
+    if not c.args:
+      continue
+    new_kw = [ast.keyword(arg=p, value=a) for p, a in zip(pos, c.args)]
+    c.keywords = new_kw + c.keywords
+    c.args = []
+  ast.fix_missing_locations(module.tree)
+  return ast.unparse(module.tree) + '\n'
+
+
 def alias_rename(module: Module, suffix: str = '_m') -> str:
   """Module-level import aliases are renamed (from a import b -> from a import b as b_m) with all their uses."""
   if module.relpath.endswith('__init__.py'):
@@ -254,9 +320,9 @@ def alias_rename(module: Module, suffix: str = '_m') -> str:
   return ast.unparse(new) + '\n'
 
 
-SIMPLE = {'aug-expand': _AugExpand, 'noise': _Noise, 'temp-return': _TempReturn, 'kw-reverse': _KwReverse, 'if-not': _IfNot,
+SIMPLE = {'mul-swap': _MulSwap, 'else-return': _ElseReturn, 'aug-expand': _AugExpand, 'noise': _Noise, 'temp-return': _TempReturn, 'kw-reverse': _KwReverse, 'if-not': _IfNot,
           'cmp-flip': _CmpFlip}
-KINDS = ['reformat', 'rename-locals', 'alias-rename'] + sorted(SIMPLE)
+KINDS = ['reformat', 'rename-locals', 'alias-rename', 'kwify'] + sorted(SIMPLE)
 
 
 def transform_repo(kind: str, repo_root: str, dst: str):
@@ -271,6 +337,8 @@ def transform_repo(kind: str, repo_root: str, dst: str):
       new = rename_locals(m)
     elif kind == 'alias-rename':
       new = alias_rename(m)
+    elif kind == 'kwify':
+      new = kwify(m, repo)
     elif kind in SIMPLE:
       tree = SIMPLE[kind]().visit(ast.parse(m.src))
       ast.fix_missing_locations(tree)
